@@ -72,6 +72,7 @@ macro_rules! cat_fixed_t {
         $m!(t_atomic_bool, std::sync::atomic::AtomicBool, 4, 0);
         $m!(t_ipaddr, std::net::IpAddr, 18, 0);
         $m!(t_socketaddr, std::net::SocketAddr, 18, 0);
+        $m!(t_socketaddr_v6, std::net::SocketAddr, 30, 1);
     };
 }
 #[macro_export]
